@@ -280,7 +280,11 @@ func (f changeFinder) walkSlice(from, to *value) bool {
 			// If the next node has leading comments, maintain whitespace
 			// between them and us.
 			if before, _ := f.commentsFor(from.Children[i+1]); len(before) > 0 {
-				r.End = n.End()
+				// The end of a node that an earlier change generated is
+				// computed from the length of its text and may lie beyond
+				// the place it took in the file: it does not reach into the
+				// next node's comments.
+				r.End = minPos(n.End(), before[0].Pos())
 			}
 		}
 
